@@ -4,6 +4,7 @@ import FontVerif.Model.Iup
 import FontVerif.Model.GvarLayout
 import FontVerif.Drv.C10Data
 import FontVerif.Drv.C10Apply
+import FontVerif.Drv.C10F64
 namespace FontVerif.Drv.C10
 open FontVerif FontVerif.PackedDeltas
 
@@ -166,6 +167,9 @@ def handle (cmd : String) (args : List String) : Option String :=
         | none =>
           match C10Data.handle cmd args with
           | some r => some r
-          | none => C10Apply.handle cmd args
+          | none =>
+            match C10Apply.handle cmd args with
+            | some r => some r
+            | none => C10F64.handle cmd args
 
 end FontVerif.Drv.C10
